@@ -5,6 +5,7 @@ mod c04;
 mod c05;
 mod c06;
 mod c10;
+mod c12;
 mod c16;
 mod c17;
 mod c18;
@@ -18,6 +19,7 @@ mod engine;
 mod iso;
 mod jsonutil;
 mod report;
+mod seeds;
 
 use report::Tier;
 
@@ -44,6 +46,7 @@ fn main() {
         let v: serde_json::Value = serde_json::from_str(&txt).expect("replay file is JSON");
         let code = match v["property"].as_str().unwrap_or("") {
             "C17" => c17::replay(&v),
+            "C12" => c12::replay(&v),
             "C10" => c10::replay(&v),
             "C18" => c18::replay(&v),
             "C16" => c16::replay(&v),
@@ -53,6 +56,9 @@ fn main() {
             }
         };
         std::process::exit(code);
+    }
+    if args[0] == "c12w" {
+        std::process::exit(c12::worker(&args[1..]));
     }
     if args[0] == "show" {
         // mc show <file.prql> : RQ JSON and SQL for the executable targets (debug aid)
@@ -95,6 +101,7 @@ fn main() {
         "C05" => c05::run(tier),
         "C06" => c06::run(tier),
         "C10" => c10::run(tier),
+        "C12" => c12::run(tier),
         "C16" => c16::run(tier),
         "C17" => c17::run(tier),
         "C18" => c18::run(tier),
